@@ -4,17 +4,27 @@ use explorer::{Args, Report};
 mod c02;
 mod c04;
 mod c07;
+mod c15;
 mod c29;
 mod c40;
 mod ephemeral;
 
 fn main() {
+    // hidden child modes of the crash-enumeration check
+    let raw: Vec<String> = std::env::args().collect();
+    if raw.get(1).map(|s| s.as_str()) == Some("C15-child") {
+        std::process::exit(c15::child_main(&raw[2..]));
+    }
+    if raw.get(1).map(|s| s.as_str()) == Some("C15-reopen") {
+        std::process::exit(c15::reopen_main(&raw[2..]));
+    }
     let args = Args::parse();
     explorer::quiet_panics();
     let code = match args.property.as_str() {
         "C02" => c02::run(Report::new(&args, "model_checking")),
         "C04" => c04::run(Report::new(&args, "model_checking")),
         "C07" => c07::run(Report::new(&args, "model_checking")),
+        "C15" => c15::run(Report::new(&args, "fault_enumeration")),
         "C16" => ephemeral::run_c16(Report::new(&args, "model_checking")),
         "C17" => ephemeral::run_c17(Report::new(&args, "model_checking")),
         "C29" => c29::run(Report::new(&args, "model_checking")),
